@@ -241,6 +241,21 @@ struct JSONUtils {
                 }
 
                 default: {
+                    if ((ch >= Char_T{0}) && (ch < Char_T{0x20})) {
+                        // Every other control character has to be written as \u00XX.
+                        constexpr const char *hex_digits = "0123456789abcdef";
+
+                        stream.Write((content + offset2), (offset - offset2));
+                        offset2 = offset;
+                        ++offset2;
+
+                        stream += JSONotation::BSlashChar;
+                        stream += JSONotation::U_Char;
+                        stream += Char_T('0');
+                        stream += Char_T('0');
+                        stream += Char_T(hex_digits[SizeT32(ch) >> 4U]);
+                        stream += Char_T(hex_digits[SizeT32(ch) & 0x0FU]);
+                    }
                 }
             }
 
